@@ -391,3 +391,125 @@ def stage_loop(run, prop, it=None):
         short = oid.split("/")[-1]
         if short not in allowed:
             del run.obs[oid]
+
+
+# ---------------------------------------------------------------------------------------
+# allocation of trace / statistics arrays (real _init_stats, _init_traces, _generate_memmap_filenames, _get_valid_filename)
+
+
+class TraceVal:
+    """ghost traced value: dtype kind ('f' inexact / 'i' integer), shape, python-scalar flag"""
+
+    def __init__(self, kind, shape, scalar):
+        self.kind, self.shape_, self.scalar = kind, shape, scalar
+
+    def _pv_getattr(self, ex, name):
+        if name == "dtype":
+            return ("dtype", self.kind)
+        if name == "shape":
+            return self.shape_
+        raise PyRaise(make_exc(ex.interp, "AttributeError", name))
+
+
+class PathTok:
+    def __init__(self, s):
+        self.s = s
+
+    def _pv_binop(self, ex, op, other):
+        if op == "__truediv__":
+            return PathTok(self.s + "/" + str(other))
+        return NotImplemented
+
+
+def allocation(run, it):
+    run.function("mici.samplers._init_stats")
+    run.function("mici.samplers._init_traces")
+    run.function("mici.samplers._generate_memmap_filenames")
+    tag = P + "allocation"
+    NCH = 2
+
+    def h(ctx):
+        use_memmap = bool(ctx.choose(2, "use_memmap"))
+        mod = it.module(MOD)
+        ex = Exec(it, ctx, mod, mod.env, "harness")
+        n_iter = z3.Int("n_trace_iter")
+        opened = []
+
+        def open_new(ex_, file_path, shape, default_val, dtype):
+            a = RowArray(file_path.s if isinstance(file_path, PathTok) else str(file_path), shape, default_val, memmap=True)
+            a.dtype = dtype
+            opened.append(a)
+            return a
+        it.call_contracts["_open_new_memmap"] = Native(open_new, "_open_new_memmap")
+
+        def np_full(ex_, shape, val, dtype):
+            arrs = []
+            for c in range(shape[0]):
+                a = RowArray(f"mem[{c}]", shape[1:] if len(shape) > 2 else shape[1], val)
+                a.dtype = dtype
+                arrs.append(a)
+            return arrs
+        np_ns = it.ext_modules["numpy"]
+        np_ns.full = Native(np_full, "np.full")
+        np_ns.isscalar = Native(lambda ex_, v: v.scalar, "np.isscalar")
+        np_ns.array = Native(lambda ex_, v: TraceVal(v.kind, (), False), "np.array")
+        np_ns.issubdtype = Native(lambda ex_, dt, cls: dt[1] == "f", "np.issubdtype")
+        np_ns.inexact = "inexact"
+        np_ns.nan = float("nan")
+        it.ext_modules["pathlib"].Path = Native(lambda ex_, s: s if isinstance(s, PathTok) else PathTok(str(s)), "Path")
+        try:
+            # two statistic-bearing transitions declaring the SAME statistic names, one without statistics
+            trans = {"first": Opaque("t1", statistic_types={"n_step": ("int64", -1), "accept_stat": ("float64", "nan")}),
+                     "second": Opaque("t2", statistic_types={"n_step": ("int64", -1), "accept_stat": ("float64", "nan")}),
+                     "momentum": Opaque("t3", statistic_types=None)}
+            stats = ex.call(mod.resolve("_init_stats", ctx), [trans, NCH, n_iter], {"use_memmap": use_memmap, "memmap_path": "DIR"})
+            oks = set(stats) == {"first", "second"} and all(set(v) == {"n_step", "accept_stat"} for v in stats.values())
+            ctx.run.ob(tag + "/statistics-structure", core.DISCHARGED if oks else core.FAILED, "pyvc", detail="" if oks else str({k: list(v) for k, v in stats.items()}),
+                       text="one entry per statistic-bearing transition and declared key")
+            arrs = [(t, k, c, stats[t][k][c]) for t in stats for k in stats[t] for c in range(NCH)] if oks else []
+            okl = all(len(stats[t][k]) == NCH for t in stats for k in stats[t])
+            ctx.run.ob(tag + "/one-array-per-chain", core.DISCHARGED if okl else core.FAILED, "pyvc")
+            good = all(a.fill == trans[t]._attrs["statistic_types"][k][1] and a.dtype == trans[t]._attrs["statistic_types"][k][0] for t, k, c, a in arrs)
+            ctx.run.ob(tag + "/statistics-fill-and-dtype-as-declared", core.DISCHARGED if good else core.FAILED, "pyvc",
+                       detail="" if good else "fill value / dtype differ from transition.statistic_types", text="every statistics array has the declared dtype and fill value")
+            for t, k, c, a in arrs:
+                ln = a.length[0] if isinstance(a.length, tuple) else a.length
+                ctx.prove(tag + "/statistics-rows", lift(ln) == n_iter, text="every statistics array has n_iter rows")
+            if use_memmap:
+                names = [a.name for t, k, c, a in arrs]
+                distinct = len(set(names)) == len(names)
+                ctx.run.ob(tag + "/memmap-files-pairwise-distinct", core.DISCHARGED if distinct else core.FAILED, "pyvc",
+                           detail="" if distinct else f"two arrays are backed by the same file: {sorted(n for n in names if names.count(n) > 1)[:4]} "
+                           "(statistics of different transitions / keys / chains would overwrite each other)",
+                           text="memory-mapped arrays of different (transition, statistic, chain) are backed by different files")
+            # traces: a float vector, an int scalar and a python float scalar
+            def tf1(ex_, state):
+                return {"pos": TraceVal("f", (3,), False), "count": TraceVal("i", (), True)}
+
+            def tf2(ex_, state):
+                return {"energy": TraceVal("f", (), True), "pos_x": TraceVal("f", (), False)}
+            n0 = len(opened)
+            traces = ex.call(mod.resolve("_init_traces", ctx), [[Native(tf1, "tf1"), Native(tf2, "tf2")], ["init0", "init1"], n_iter],
+                             {"use_memmap": use_memmap, "memmap_path": "DIR"})
+            okt = set(traces) == {"pos", "count", "energy", "pos_x"} and all(len(v) == NCH for v in traces.values())
+            ctx.run.ob(tag + "/trace-structure", core.DISCHARGED if okt else core.FAILED, "pyvc", detail="" if okt else str(list(traces)))
+            if okt:
+                want = {"pos": ("f", (3,)), "count": ("i", ()), "energy": ("f", ()), "pos_x": ("f", ())}
+                for k, (kind, shp) in want.items():
+                    for a in traces[k]:
+                        fill_ok = (isinstance(a.fill, float) and a.fill != a.fill) if kind == "f" else a.fill == 0
+                        ctx.run.ob(tag + "/trace-fill-nan-for-inexact-else-zero", core.DISCHARGED if fill_ok else core.FAILED, "pyvc", detail="" if fill_ok else f"{k}: fill {a.fill}")
+                        shape = a.length if isinstance(a.length, tuple) else (a.length,)
+                        ctx.prove(tag + "/trace-rows", lift(shape[0]) == n_iter)
+                        oksh = tuple(shape[1:]) == shp
+                        ctx.run.ob(tag + "/trace-trailing-shape", core.DISCHARGED if oksh else core.FAILED, "pyvc", detail="" if oksh else f"{k}: shape {shape}")
+                if use_memmap:
+                    names = [a.name for v in traces.values() for a in v] + [a.name for t, k, c, a in arrs]
+                    distinct = len(set(names)) == len(names)
+                    ctx.run.ob(tag + "/memmap-files-pairwise-distinct", core.DISCHARGED if distinct else core.FAILED, "pyvc",
+                               detail="" if distinct else "trace / statistics arrays share a backing file")
+        except PyRaise as pr:
+            ctx.run.ob(tag + "/no-exception", core.FAILED, "pyvc", detail=f"{exc_name(pr.exc)} {pr.exc.attrs.get('args')}")
+        finally:
+            it.call_contracts.pop("_open_new_memmap", None)
+    it.explore(h, "allocation", roots=[[0], [1]])
